@@ -236,6 +236,24 @@ class Analysis:
         val = None
         if c in SUMMARIES:
             val = SUMMARIES[c]
+        elif c.endswith("slice::<impl [T]>::len") and t["args"] and t["args"][0].get("k") in ("copy", "move") and not t["args"][0]["place"].get("p"):
+            # length of a slice that is an unsized array reference: the array's length
+            import re as _re
+            l0 = t["args"][0]["place"]["l"]
+            for _ in range(4):
+                d = self.def1.get(l0)
+                if not d or d[0] != "rv":
+                    break
+                rv0 = d[1]
+                if rv0["k"] == "Cast" and "Unsize" in str(rv0.get("ck")):
+                    m_ = _re.search(r";\s*(\d+)\]$", str(rv0.get("from", "")).strip())
+                    if m_:
+                        val = (int(m_.group(1)), int(m_.group(1)))
+                    break
+                if rv0["k"] == "Use" and rv0["op"].get("k") in ("copy", "move") and not rv0["op"]["place"].get("p"):
+                    l0 = rv0["op"]["place"]["l"]
+                    continue
+                break
         elif c.endswith("<impl i8>::abs") or c.endswith("::abs"):
             a = self.operand(t["args"][0], st) if t["args"] else None
             if a is not None:
